@@ -392,24 +392,87 @@ func runC20(c *core.Ctx) {
 			return a.Neg && a.Tag == nil && strings.HasSuffix(core.ExprStr(a.Expr), ".Broken")
 		})
 		o.Require(okBroken, "a broken object can enter the rebuilt table")
-		// skip only when the existing generation is strictly greater
+		// skip only when the existing generation is strictly greater: a comparison
+		// between the generation of the object at hand (a call of Generation(),
+		// possibly kept in a local) and the Generation field of the existing entry
 		skipOK := false
+		isObjGen := func(at *core.V, e ast.Expr) bool {
+			all := true
+			for _, vc := range valueCases(g, at, e, 2) {
+				x := ast.Unparen(vc.Expr)
+				if cv, isConv := x.(*ast.CallExpr); isConv && len(cv.Args) == 1 {
+					if tv, ok := info.Types[cv.Fun]; ok && tv.IsType() {
+						x = ast.Unparen(cv.Args[0])
+					}
+				}
+				call, ok := x.(*ast.CallExpr)
+				if !ok || !strings.HasSuffix(core.CalleeKey(info, call), ".Generation") {
+					all = false
+				}
+			}
+			return all
+		}
+		isEntryGen := func(e ast.Expr) bool {
+			_, name, ok := selName(e)
+			if !ok || name != "Generation" {
+				return false
+			}
+			sel := ast.Unparen(e).(*ast.SelectorExpr)
+			s := info.Selections[sel]
+			return s != nil && s.Kind() == types.FieldVal
+		}
 		for _, bv := range g.BranchVertices() {
 			if bv.Cond.Expr == nil {
 				continue
 			}
-			s := strings.ReplaceAll(core.ExprStr(bv.Cond.Expr), " ", "")
-			if strings.Contains(s, "ref.Generation()<entry.Generation") && strings.HasPrefix(s, "ok&&") {
-				skipOK = true
-			}
-			if strings.Contains(s, "ref.Generation()<=entry.Generation") {
-				o.Fail("an equal generation keeps the FIRST definition; the last definition must win")
+			for _, a := range bv.Implied(core.EdgeTrue) {
+				cmp, ok := a.AsCmp()
+				if !ok {
+					continue
+				}
+				op := cmp.Op
+				l, r := cmp.L, cmp.R
+				if isEntryGen(l) && isObjGen(bv, r) {
+					// entry OP obj  ==  obj OP' entry
+					l, r = r, l
+					op = map[token.Token]token.Token{token.GTR: token.LSS, token.GEQ: token.LEQ, token.LSS: token.GTR, token.LEQ: token.GEQ}[op]
+				} else if !(isObjGen(bv, l) && isEntryGen(r)) {
+					continue
+				}
+				switch op {
+				case token.LSS:
+					skipOK = true
+					o.At(fn.Site(bv.Cond.Expr, "keeps the entry with the higher generation"))
+				case token.LEQ:
+					o.Fail("an equal generation keeps the FIRST definition; the last definition must win")
+				}
 			}
 		}
 		o.Require(skipOK, "no 'existing entry has a higher generation' test")
-		f := compositeFields(info, st[0].Value)
-		o.Require(core.ExprStr(f["Pos"]) == "obj.ObjStart", "entries must point at the object's start, got %s", core.ExprStr(f["Pos"]))
-		o.Require(strings.Contains(core.ExprStr(f["Generation"]), "Generation()"), "entries must record the generation")
+		// what is recorded: the object's start and generation, in the literal that is
+		// stored or in the fields of an entry that is updated in place
+		recPos, recGen := false, false
+		checkField := func(at *core.V, name string, val ast.Expr) {
+			switch name {
+			case "Pos":
+				if strings.ReplaceAll(core.ExprStr(val), " ", "") == "obj.ObjStart" {
+					recPos = true
+				} else {
+					o.Fail("entries must point at the object's start, got %s", core.ExprStr(val))
+				}
+			case "Generation":
+				if isObjGen(at, val) {
+					recGen = true
+				} else {
+					o.Fail("entries must record the generation, got %s", core.ExprStr(val))
+				}
+			}
+		}
+		for name, val := range compositeFields(info, st[0].Value) {
+			checkField(st[0].V, name, val)
+		}
+		o.Require(recPos, "entries must point at the object's start")
+		o.Require(recGen, "entries must record the generation")
 	})
 	c.Check("C20-R3", "pdf.SequentialScan/order", "objects are located, then indexed (last definition wins), then checked, so an indirect /Length can be resolved while checking", func(o *core.Ob) {
 		fn := c.Prog.Func("pdf", "SequentialScan")
